@@ -59,11 +59,43 @@ def classify(diff, ov, vv):
     return "differs|%s->%s|%s" % (ov[0], vv[0], re.sub(r"[\$0-9a-f_A-Z]+", "", diff)[:40])
 
 
+# hand-written spellings of one statement that differ only in blanks/comments between tokens (the special operands the generator
+# does not produce: the scope symbols - and +, `*`, modifiers, unary operators next to binary ones)
+SPELLINGS = [
+    ["lda -+1", "lda - + 1", "lda -\t+ 1", "lda - /*c*/ + 1"], ["cmp --1", "cmp - - 1", "cmp - -1"], ["sta -+2,x", "sta - + 2,x", "sta - + 2 , x"],
+    ["lda ++1", "lda + + 1"], ["lda +-1", "lda + - 1"], ["lda *+3", "lda * + 3", "lda */*c*/+ 3"], ["lda **2", "lda * * 2"], ["lda #<-", "lda # <-", "lda #< -"],
+    ["lda #>+", "lda #> +"], ["bne -", "bne  -", "bne\t-"], ["lda #!-v", "lda #! -v", "lda #!- v"], ["lda #-v", "lda # -v"], ["lda #1--v", "lda #1 - -v", "lda #1- -v"],
+    ["lda #1-!v", "lda #1 - !v"], ["lda (-),y", "lda ( - ) , y", "lda (- ),y"], ["lda (+,x)", "lda ( + , x )"], ["jmp (-)", "jmp ( - )"], [".word -,+,*", ".word - , + , *"],
+    [".byte <-,>+", ".byte < - , > +", ".byte <- , >+"], [".byte v*-v", ".byte v * -v", ".byte v *-v"], [".byte -v*v", ".byte -v * v"], [".word *-(-)", ".word * - (-)", ".word * -( - )"],
+    [".if -<+ { nop }", ".if - < + { nop }"], [".byte -==-, +!=-", ".byte - == -, + != -"], [".byte v<<1, v>>1", ".byte v << 1, v >> 1"], [".word -^+", ".word - ^ +"], [".byte -&&+, -||+", ".byte - && +, - || +"],
+]
+
+
+def spelling_cases(acc, probe):
+    """Every spelling of a group, placed in the same surrounding program, must assemble to the same bytes (or be rejected alike)."""
+    for group in SPELLINGS:
+        outcomes = []
+        for text in group:
+            src = ".const v = 3\nsc: {\n    nop\n    nop\n    %s\n    nop\n}\n" % text
+            acc.evaluations += 1
+            outcomes.append((text, observe(probe.ask({"files": {"main.asm": src}, "ops": OPS, "opts": {"pc": 0x2000}})), src))
+        first = outcomes[0]
+        for text, o, src in outcomes[1:]:
+            if o != first[1]:
+                acc.violation("spelling-differs|%s" % first[0].split()[0], "%r and %r differ only in blanks/comments between tokens: %s" % (first[0], text, first_diff(first[1], o)),
+                              {"original": {"main.asm": first[2]}, "variant": {"main.asm": src}, "orig_outcome": str(first[1])[:400], "variant_outcome": str(o)[:400]})
+            else:
+                acc.nontriv("spelling", text)
+        acc.count("spelling_groups." + first[1][0])
+
+
 def shard(idx, n, seed, tier, params):
     acc = Acc()
     probe = Probe()
     rng = rng_for(seed, "c08", idx)
     t_end = time.time() + params["budget"]
+    if idx == 0:
+        spelling_cases(acc, probe)
     for i in range(params["programs"] // n):
         if time.time() > t_end:
             acc.count("budget_cut")
@@ -125,5 +157,6 @@ def main(tier, seed):
              "the grammar accepts trivia (same-line trivia inside statements; newlines, blank lines and line comments between statements "
              "and before `{` `}` else from), LF or CRLF, random letter case of mnemonics/directives/registers/as/from/else/encodings/hex "
              "digits, leading zeros and radix of literals. Bytes per segment, final symbol values by path and diagnostic messages "
-             "(positions stripped) must be identical. Non-trivial = distinct variant text that agreed.",
+             "(positions stripped) must be identical. Plus 26 hand-written groups of spellings of one statement (scope symbols - and +, `*`, modifiers and unary "
+             "operators next to binary ones, with and without blanks/comments between the tokens). Non-trivial = distinct variant text that agreed.",
         assumptions=["the whitelist of trivia positions is the renderer's reading of the grammar's ws/mws wrappers"])
